@@ -146,3 +146,52 @@ macro_rules! both_cfgs {
         $crate::dirx::block_on($f::<$crate::model::Exp>($($arg),*)).map_err(|mut e| { e.msg = format!("[Experimental] {}", e.msg); e })?;
     }};
 }
+
+#[derive(Serialize, Deserialize, Clone, Copy, Debug, PartialEq, Eq, Hash)]
+pub enum HP {
+    Complete,
+    MostRecent(usize),
+}
+impl HP {
+    pub fn to(self) -> HistoryParams {
+        match self {
+            HP::Complete => HistoryParams::Complete,
+            HP::MostRecent(n) => HistoryParams::MostRecent(n),
+        }
+    }
+}
+
+/// expected verified history (newest first) for a label at epoch e under parameter p
+pub fn expected_history(m: &Model, label: &[u8], e: u64, p: HP) -> Vec<VerifyResult> {
+    let mut v: Vec<VerifyResult> = m
+        .versions_at(label, e)
+        .into_iter()
+        .rev()
+        .map(|x| VerifyResult { epoch: x.epoch, version: x.version, value: AkdValue(x.value) })
+        .collect();
+    if let HP::MostRecent(n) = p {
+        v.truncate(n);
+    }
+    v
+}
+pub fn expected_lookup(m: &Model, label: &[u8], e: u64) -> Option<VerifyResult> {
+    m.latest_at(label, e).map(|x| VerifyResult { epoch: x.epoch, version: x.version, value: AkdValue(x.value) })
+}
+
+/// A directory + model pair driven step by step.
+pub struct Sys<TC: Tcfg, S: Database + 'static> {
+    pub dir: Dir<TC, S>,
+    pub m: Model,
+    pub key: Vec<u8>,
+    pub pk: Vec<u8>,
+}
+impl<TC: Tcfg, S: Database + 'static> Sys<TC, S> {
+    pub async fn new(st: StorageManager<S>, key_idx: u8, par: ParKind) -> R<Self> {
+        let key = crate::model::key_bytes(key_idx);
+        let dir = new_dir::<TC, S>(st, &key, par).await?;
+        Ok(Sys { dir, m: Model::new(TC::CFG, &key), pk: public_key(&key), key })
+    }
+    pub async fn publish(&mut self, batch: &[(Vec<u8>, Vec<u8>)], step: usize) -> R<bool> {
+        publish_both::<TC, S>(&self.dir, &mut self.m, batch, step).await
+    }
+}
